@@ -16,7 +16,58 @@ func init() {
 		ruleK2(c, "C15.K2")
 		ruleK3(c, "C15.K3")
 		ruleK4(c, "C15.K4")
+		ruleK5(c, "C15.K5")
 	}
+}
+
+// ruleK5: the in-memory allocators are built from the bitmap region they
+// allocate from: blocks from [BitmapBlockStart, +NBlockBitmap), inodes from
+// [BitmapInodeStart, +NInodeBitmap), and are stored in the matching fields.
+func ruleK5(c *Ctx, id string) {
+	P, R := c.P, c.R
+	R.Rule(id, "allocators cover their whole bitmap region: MkFsState builds Balloc from readBitmap(BitmapBlockStart(), NBlockBitmap) and Ialloc from readBitmap(BitmapInodeStart(), NInodeBitmap)", 2)
+	mk := c.fn(id, "fstxn.MkFsState")
+	rb := c.fn(id, "fstxn.readBitmap")
+	if mk == nil || rb == nil {
+		return
+	}
+	R.Analysed[FuncName(mk)] = true
+	want := map[string][2]string{"Balloc": {"BitmapBlockStart", "NBlockBitmap"}, "Ialloc": {"BitmapInodeStart", "NInodeBitmap"}}
+	seen := map[string]bool{}
+	for _, w := range FieldWrites(mk) {
+		wv, ok := want[w.Field]
+		if !ok || w.Type.Obj().Name() != "FsState" {
+			continue
+		}
+		seen[w.Field] = true
+		start, length := "", ""
+		for v := range bwdAll(w.Val) {
+			cl, isC := v.(*ssa.Call)
+			if !isC || cl.Call.StaticCallee() != rb {
+				continue
+			}
+			if sc, ok := stripConv(cl.Call.Args[1]).(*ssa.Call); ok && sc.Call.StaticCallee() != nil {
+				start = sc.Call.StaticCallee().Name()
+			}
+			_, length, _, _ = loadedField(cl.Call.Args[2])
+		}
+		R.Check(start == wv[0] && length == wv[1], id, "fstxn.MkFsState|"+w.Field+" from its own bitmap", P.Pos(w.Instr.Pos()), fmt.Sprintf("%s is built from readBitmap(%s(), %s)", w.Field, wv[0], wv[1]), "start and length agree", fmt.Sprintf("%s is built from readBitmap(%s(), %s): the allocator knows only part of (or another) bitmap: blocks beyond it can never be allocated, or foreign bits are handed out", w.Field, start, length))
+	}
+	for f := range want {
+		if !seen[f] {
+			R.Fail(id, "fstxn.MkFsState|"+f+" set", P.Pos(mk.Pos()), "MkFsState sets "+f, "no store found")
+		}
+	}
+	// readBitmap reads len consecutive blocks from start through the log
+	okLoop := false
+	for _, b := range rb.Blocks {
+		for _, in := range b.Instrs {
+			if cl, ok := in.(*ssa.Call); ok && cl.Call.StaticCallee() != nil && cl.Call.StaticCallee().Name() == "Load" && reachableFrom(in, in) {
+				okLoop = true
+			}
+		}
+	}
+	R.Check(okLoop, id, "fstxn.readBitmap|reads every block of the region through the log", P.Pos(rb.Pos()), "readBitmap loads in a loop over the region", "log.Load in a cycle", "the bitmap is not read in full / not through the log")
 }
 
 // accessorForm: fn returns  prev() + conv(field)  or  conv(field).
@@ -193,7 +244,7 @@ func ruleK2(c *Ctx, id string) {
 
 func ruleK3(c *Ctx, id string) {
 	V, P, R := c.V, c.P, c.R
-	R.Rule(id, "format and assertion use the same range: makeFs marks [0,DataStart) and [MaxBnum, ...) through markAlloc(super, DataStart(), MaxBnum()); AssertValidBlock rejects < DataStart() and >= MaxBnum(); markAlloc refuses configurations it cannot format; the two reserved inode bits are NULLINUM and ROOTINUM", 4)
+	R.Rule(id, "format and assertion use the same range: makeFs marks [0,DataStart) and [MaxBnum, ...) through markAlloc(super, DataStart(), MaxBnum()); AssertValidBlock rejects < DataStart() and >= MaxBnum(); markAlloc refuses configurations it cannot format; the two reserved inode bits are NULLINUM and ROOTINUM; every bitmap write of mkfs is unconditional", 7)
 	mkfs := c.fn(id, "nfs.makeFs")
 	mark := c.fn(id, "nfs.markAlloc")
 	if mkfs == nil || mark == nil || V.AssertValidBlock == nil {
@@ -297,6 +348,17 @@ func ruleK3(c *Ctx, id string) {
 				if cl, ok := stripConv(callCommon(in).Args[0]).(*ssa.Call); ok && cl.Call.StaticCallee() != nil && cl.Call.StaticCallee().Name() == "BitmapInodeStart" {
 					wroteAtInodeBitmap = true
 				}
+			}
+		}
+	}
+	nw := 0
+	for _, b := range mark.Blocks {
+		for _, in := range b.Instrs {
+			if k, ok := rawDiskOp(in); ok && k == "write" {
+				nw++
+				this := in
+				always := MustAfter(mark, func(x ssa.Instruction) bool { return x == this }, nil)(mark.Blocks[0].Instrs[0])
+				R.Check(always, id, fmt.Sprintf("nfs.markAlloc|bitmap write#%d on every path", nw), P.Pos(in.Pos()), "each of mkfs's bitmap writes (head of the block bitmap, tail beyond the disk size, reserved inodes) happens on every non-panicking path", "must-follow from entry", "a bitmap write is skipped for some disk sizes: bits beyond the disk (or the reserved ones) stay free and the allocator hands out a block that does not exist")
 			}
 		}
 	}
